@@ -4,7 +4,7 @@
 (* the row/column views), skipna semantics, and the design question behind the block-wise evaluation along    *)
 (* axis 1: evaluating per block and combining is sound exactly for the functions flagged composable.          *)
 EXTENDS SFReduce
-CONSTANTS NR, NC
+CONSTANTS NR, NC, WithBool
 VARIABLES cs, res
 vars == <<cs, res>>
 CellVals == {<<"i", 0>>, <<"i", 1>>, <<"i", 2>>, <<"f", 1, 2>>, NaN}
@@ -12,8 +12,13 @@ Fns == {"sum", "prod", "min", "max", "mean", "median", "var", "all", "any"}
 Pending == [k |-> "pending"]
 FrameOf(m) == [index |-> [i \in 1..NR |-> <<"i", i - 1>>], columns |-> [j \in 1..NC |-> <<"s", <<"a", "b", "c">>[j]>>], name |-> None,
                cols |-> [j \in 1..NC |-> [dt |-> DtF64, vals |-> [i \in 1..NR |-> Cast(m[i][j], DtF64)]]]]
-Init == /\ \E m \in [1..NR -> [1..NC -> CellVals]], fn \in Fns, ax \in {0, 1}, sk \in BOOLEAN, dd \in {0, 1} :
-              cs = [op |-> "f_reduce", f |-> FrameOf(m), fn |-> fn, axis |-> ax, skipna |-> sk, ddof |-> IF fn = "var" THEN dd ELSE 0]
+(* a second family: a Boolean first column next to float columns (the whole-frame dtype resolves to object), one row *)
+FrameOfB(b, m) == [index |-> <<<<"i", 0>>>>, columns |-> [j \in 1..NC |-> <<"s", <<"a", "b", "c">>[j]>>], name |-> None,
+                   cols |-> [j \in 1..NC |-> IF j = 1 THEN [dt |-> DtB, vals |-> <<b>>] ELSE [dt |-> DtF64, vals |-> <<Cast(m[j], DtF64)>>]]]
+Init == /\ \/ \E m \in [1..NR -> [1..NC -> CellVals]], fn \in Fns, ax \in {0, 1}, sk \in BOOLEAN, dd \in {0, 1} :
+                 cs = [op |-> "f_reduce", f |-> FrameOf(m), fn |-> fn, axis |-> ax, skipna |-> sk, ddof |-> IF fn = "var" THEN dd ELSE 0]
+           \/ \E b \in {<<"b", 0>>, <<"b", 1>>}, m \in [2..NC -> CellVals], fn \in Fns, ax \in {0, 1}, sk \in BOOLEAN :
+                 WithBool /\ cs = [op |-> "f_reduce", f |-> FrameOfB(b, m), fn |-> fn, axis |-> ax, skipna |-> sk, ddof |-> 0]
         /\ res = Pending
 Call == res.k = "pending" /\ res' = FrameReduce(cs.f, cs.fn, cs.axis, cs.skipna, cs.ddof) /\ UNCHANGED cs
 Next == Call
@@ -28,14 +33,15 @@ SkipnaIgnores ==
      \A k \in 1..Len(res.vals) : res.vals[k] = Reduce(cs.fn, Valid(Lines(cs.f, cs.axis)[k]), FALSE, cs.ddof).v
 (* block-wise evaluation along axis 1: splitting a row after its first cell and combining partial results *)
 Row(k) == Lines(cs.f, 1)[k]
+NRows2 == Len(cs.f.index)
 TwoStageSound ==
   (cs.axis = 1 /\ cs.fn \in Composable /\ NC >= 2) =>
-     \A k \in 1..NR : \A cut \in 1..(NC - 1) :
+     \A k \in 1..NRows2 : \A cut \in 1..(NC - 1) :
         LET two == TwoStage(cs.fn, <<SubSeq(Row(k), 1, cut), SubSeq(Row(k), cut + 1, NC)>>, cs.skipna)
             one == Reduce(cs.fn, Row(k), cs.skipna, 0)
         IN two = one
 (* negative control: claimed for a non-composable function it must fail (mean of means is not the mean) *)
 TwoStageSoundForAll ==
   (cs.axis = 1 /\ NC >= 2) =>
-     \A k \in 1..NR : TwoStage(cs.fn, <<SubSeq(Row(k), 1, 1), SubSeq(Row(k), 2, NC)>>, cs.skipna) = Reduce(cs.fn, Row(k), cs.skipna, 0)
+     \A k \in 1..NRows2 : TwoStage(cs.fn, <<SubSeq(Row(k), 1, 1), SubSeq(Row(k), 2, NC)>>, cs.skipna) = Reduce(cs.fn, Row(k), cs.skipna, 0)
 =============================================================================
